@@ -122,6 +122,8 @@ class Rms:
             f"pow={fbits(f32(c['pow']))}", f"pow_rank={1 if c['pow_rank1'] else 0}",
             f"keepdims={'none' if c['keepdims'] is None else c['keepdims']}",
             f"noop={'none' if c['noop'] is None else c['noop']}",
+            f"xrank={len(c['xshape'])}", f"srank={len(c['sshape'])}",
+            f"epsrank={ {'s': 0, 'v1': 1, 'm11': 2, 'v2': 1, 'input': 0, 'int': 0}[ek] }",
         ])
 
     @staticmethod
@@ -1008,7 +1010,7 @@ class Mha:
     def line(c, shapes=None):
         sh = shapes or {}
         rot = c.get("rotary") and c["Dh"] % 2 == 0
-        parts = ["mha", f"past={b(c['past'])}", f"key_t={b(c['key_t'] or c['past'] or rot)}", f"rotary={b(rot)}",
+        parts = ["mha", f"past={b(c['past'])}", f"key_t={b(c['key_t'] or c['past'] or rot)}", f"rotary={b(rot)}", f"rot_il={c.get('rot_il') or 0}",
                  f"q_perm_ok={b(c['q_perm'] == [0, 2, 1, 3])}",
                  "scale=" + {"default": "none", "custom": fbits(f32(0.3)), "none": fbits(1.0)}[c["scale"]]]
         for n in ("query", "key", "value", "q4", "past_key", "past_value", "mask"):
